@@ -69,7 +69,8 @@ def _c06():
 
 def _c09():
     import stack as sk
-    return {"builders": [sk.build], "level": "proof", "explanation": "scope/call stack pairing lemmas and RAII guard lemmas"}
+    import scopeopt as so
+    return {"builders": [sk.build, so.build], "level": "proof", "explanation": "scope/call stack pairing lemmas and RAII guard lemmas"}
 
 
 def _c19():
@@ -118,7 +119,8 @@ def _c18():
 
 def _c04():
     import lookup as lu
-    return {"builders": [lu.build], "level": "other", "explanation": "variable lookup: hint encoding round trip, innermost-first search (bounded), find(s, hint)"}
+    import scopeopt as so
+    return {"builders": [lu.build, so.build], "level": "other", "explanation": "variable lookup: hint encoding round trip, innermost-first search (bounded), find(s, hint)"}
 
 
 PROPS = {"C04": _c04, "C18": _c18, "C12": _c12, "C16": _c16, "C19": _c19, "C09": _c09, "C07": _c07, "C06": _c06, "C20": _c20, "C01": _c01, "C05": _c05}
